@@ -125,6 +125,8 @@ func runWm(s WmScenario) ([]WmEvent, WmResult) {
 		ts     int
 		cancel context.CancelFunc
 		done   chan struct{}
+
+		cancelled bool
 	}
 	var pw []*pendingWait
 	var wg sync.WaitGroup
@@ -149,6 +151,30 @@ func runWm(s WmScenario) ([]WmEvent, WmResult) {
 				cmu.Unlock()
 			case "o":
 				tr.addObs(w, "Obs")
+			case "x": // the context of the oldest parked wait ends now; the calls after it still have to work
+				cmu.Lock()
+				var victim *pendingWait
+				for _, p := range pw {
+					select {
+					case <-p.done:
+					default:
+						if victim == nil && !p.cancelled {
+							victim = p
+						}
+					}
+				}
+				if victim != nil {
+					victim.cancelled = true
+				}
+				cmu.Unlock()
+				if victim != nil {
+					tr.add(WmEvent{Ev: "Cancel", G: victim.g})
+					victim.cancel()
+					select {
+					case <-victim.done:
+					case <-time.After(30 * time.Second):
+					}
+				}
 			case "w":
 				ctx, cancel := context.WithCancel(context.Background())
 				p := &pendingWait{g: g, ts: c.Ts, cancel: cancel, done: make(chan struct{})}
@@ -180,6 +206,20 @@ func runWm(s WmScenario) ([]WmEvent, WmResult) {
 		if s.Mode == "seq" {
 			// sequential issue: wait until this client has finished or is parked in a wait
 			waitClient(&wg, tr, g, s.Calls[g-1], w)
+			for _, c := range s.Calls[g-1] {
+				if c.Kind == "x" { // a cancelling client is done when the cancelled wait has returned
+					for i := 0; i < 700000; i++ {
+						cmu.Lock()
+						fin := state[g] == 2
+						cmu.Unlock()
+						if fin {
+							break
+						}
+						time.Sleep(50 * time.Microsecond)
+					}
+					break
+				}
+			}
 		}
 	}
 	// quiesce: all Begin/Done calls returned => wait until the consumer has taken every mark
@@ -277,7 +317,7 @@ func runWm(s WmScenario) ([]WmEvent, WmResult) {
 func waitClient(wg *sync.WaitGroup, tr *wmTrace, g int, calls []WmCall, w *watermark.WaterMark) {
 	need := 0
 	for _, c := range calls {
-		if c.Kind != "o" {
+		if c.Kind != "o" && c.Kind != "x" {
 			need++
 		}
 	}
@@ -370,8 +410,10 @@ func genWmScenario(r *rand.Rand, id string, mode string) WmScenario {
 		open := []int{}
 		for i := 0; i < n; i++ {
 			var c WmCall
-			x := r.Intn(10)
+			x := r.Intn(11)
 			switch {
+			case x == 10: // the context of the oldest parked wait ends
+				c = WmCall{Kind: "x"}
 			case x < 4:
 				c = WmCall{Kind: "b", Ts: r.Intn(s.NIdx)}
 				open = append(open, c.Ts)
